@@ -18,7 +18,7 @@ func pfIs(f sipsp.PField, s gen.Span) bool {
 // checkHdrBlock is the C07 oracle: the generated header block of m must be
 // tokenised exactly as generated, for header capacity hcap, with or without
 // typed bodies.
-func checkHdrBlock(w *core.Worker, m *gen.MsgSpec, hcap int, withPV bool, cuts []int) bool {
+func checkHdrBlock(w *core.Worker, m *gen.MsgSpec, hcap int, withPV bool, cuts []int, pollute []byte) bool {
 	var hl sipsp.HdrLst
 	var pv sipsp.PHdrVals
 	hl.Hdrs = make([]sipsp.Hdr, hcap)
@@ -27,6 +27,16 @@ func checkHdrBlock(w *core.Worker, m *gen.MsgSpec, hcap int, withPV bool, cuts [
 	var e sipsp.ErrorHdr
 	offs := m.FLEnd
 	pan, pmsg, stk := core.Guard(func() {
+		if pollute != nil {
+			// the list (and value set) were used before for another, abandoned block and reset
+			if withPV {
+				sipsp.ParseHeaders(pollute, 0, &hl, &pv)
+			} else {
+				sipsp.ParseHeaders(pollute, 0, &hl, nil)
+			}
+			hl.Reset()
+			pv.Reset()
+		}
 		e = sipsp.ErrHdrMoreBytes
 		for _, c := range cuts {
 			if c < offs {
@@ -46,7 +56,7 @@ func checkHdrBlock(w *core.Worker, m *gen.MsgSpec, hcap int, withPV bool, cuts [
 	w.Eval(1)
 	fail := func(cls, what string) bool {
 		w.Fail(cls, func() *core.Violation {
-			v := core.V(what, buf[m.FLEnd:], map[string]any{"hdr_cap": hcap, "typed_bodies": withPV, "cuts": append([]int(nil), cuts...), "headers_generated": len(m.Hdrs), "block_offset": m.FLEnd})
+			v := core.V(what, buf[m.FLEnd:], map[string]any{"hdr_cap": hcap, "typed_bodies": withPV, "cuts": append([]int(nil), cuts...), "headers_generated": len(m.Hdrs), "block_offset": m.FLEnd, "list_used_before_for": core.Esc(pollute)})
 			v.Stack = stk
 			return v
 		})
@@ -120,9 +130,9 @@ func checkHdrBlock(w *core.Worker, m *gen.MsgSpec, hcap int, withPV bool, cuts [
 
 // RunC07 is the monitor for C07.
 func RunC07(r *core.Run) {
-	r.Rule = "case = one grammar-generated header block (1..60 logical lines: known names in any letter case / compact forms, token names, near-miss names; SP/HT before the colon; 0..n value tokens separated by SP/HT/folds; CRLF, CR and LF line ends mixed; empty values; repeated headers) x header capacity 0..N+1 x {pure tokeniser, typed bodies} x {one-shot, chunked}; expected by construction: verdict OK, offset after the blank line, N = number of logical lines, PFlags = set of types (independent name table), every stored header's Type/Name/Val (Val = first..last non-whitespace byte, empty value = empty field), GetHdr(t) = first header of type t or Missing(); non-trivial = block accepted and compared; distinct by hash(block, capacity, mode)"
+	r.Rule = "case = one grammar-generated header block (1..60 logical lines: known names in any letter case / compact forms, token names, near-miss names; SP/HT before the colon; 0..n value tokens separated by SP/HT/folds; CRLF, CR and LF line ends mixed; empty values; repeated headers) x header capacity 0..N+1 x {pure tokeniser, typed bodies} x {one-shot, chunked} x {new list, list used for an abandoned other block and Reset()}; expected by construction: verdict OK, offset after the blank line, N = number of logical lines, PFlags = set of types (independent name table), every stored header's Type/Name/Val (Val = first..last non-whitespace byte, empty value = empty field), GetHdr(t) = first header of type t or Missing(); non-trivial = block accepted and compared; distinct by hash(block, capacity, mode)"
 	r.Assume = []string{"a lone CR line end is never followed by a line starting with LF (the concatenation would be a CRLF)", "typed headers (From, To, Call-ID, CSeq, Content-Length, Contact, Expires, P-Asserted-Identity) carry values that are well formed for their typed parser"}
-	n := r.Pick(150000, 6000000)
+	n := r.Pick(800000, 12000000)
 	r.Stage("generated-blocks", n, func(w *core.Worker, idx int64) {
 		rr := core.NewRand(r.Seed, 0xC07, 1, uint64(idx))
 		o := gen.MsgOpts{MinHdrs: 1, MaxHdrs: 12, MultiNA: 40, NoBody: rr.Bool()}
@@ -151,7 +161,15 @@ func RunC07(r *core.Run) {
 				} else {
 					s.cuts = CutsRandom(s.cuts, rr, m.FLEnd, len(m.Raw), rr.Range(1, 10))
 				}
-				ok = checkHdrBlock(w, m, hc, withPV, s.cuts)
+				var pollute []byte
+				if k == 2 {
+					// reuse: a prefix of another block was parsed into the same list, then Reset()
+					m2 := gen.Msg(rr, gen.MsgOpts{MinHdrs: 2, MaxHdrs: 8, MultiNA: 50})
+					blk := m2.Raw[m2.FLEnd:]
+					pollute = blk[:rr.Intn(len(blk)+1)]
+					w.Inc("blocks_on_reused_lists")
+				}
+				ok = checkHdrBlock(w, m, hc, withPV, s.cuts, pollute)
 			}
 		}
 		if ok {
@@ -367,10 +385,10 @@ func structuralCheck(m *sipsp.PSIPMsg, buf []byte, start, n int, flags uint8) (c
 
 // RunC05 is the monitor for C05.
 func RunC05(r *core.Run) {
-	r.Rule = "case = one message that parses successfully (grammar-generated with repeated / multi-value Contact, P-Asserted-Identity, From headers emphasised, or a mutated corpus message that is still accepted), flags 0..7, any capacities, one-shot or chunked; the structural invariant is evaluated on the result: all fields inside [start, returned offset); first-line fields ordered; every stored header's Name at the start of and its Val inside that header's OWN logical line (line extents from an independent splitter), after the colon, trimmed (an empty value is the empty field); Name/URI/Params/Tag inside V, Tag inside Params, CSeq number before method inside the CSeq value; typed values equal the first header of their type's Val; every stored contact / identity value lies inside a Contact / PAI header value; Body starts after the blank line and ends at the returned offset; RawMsg == buf[start:offset], Buf == buf[:offset]; non-trivial = accepted messages; distinct by hash"
+	r.Rule = "case = one message that parses successfully (grammar-generated with repeated / multi-value Contact, P-Asserted-Identity, From headers emphasised, or a mutated corpus message that is still accepted), flags 0..7, any capacities, one-shot or chunked, on a new object or on one used for an abandoned other message and Reset()/Init(); the structural invariant is evaluated on the result: all fields inside [start, returned offset); first-line fields ordered; every stored header's Name at the start of and its Val inside that header's OWN logical line (line extents from an independent splitter), after the colon, trimmed (an empty value is the empty field); Name/URI/Params/Tag inside V, Tag inside Params, CSeq number before method inside the CSeq value; typed values equal the first header of their type's Val; every stored contact / identity value lies inside a Contact / PAI header value; Body starts after the blank line and ends at the returned offset; RawMsg == buf[start:offset], Buf == buf[:offset]; non-trivial = accepted messages; distinct by hash"
 	r.Assume = []string{"the independent splitter (ref.HeaderLines) implements: a logical line ends at CRLF / CR / LF not followed by SP or HT"}
 	corpus := loadCorpus()
-	n := r.Pick(200000, 8000000)
+	n := r.Pick(1500000, 20000000)
 	r.Stage("messages", n, func(w *core.Worker, idx int64) {
 		rr := core.NewRand(r.Seed, 0xC05, 1, uint64(idx))
 		var in []byte
@@ -392,6 +410,16 @@ func RunC05(r *core.Run) {
 		buf := s.buf
 		cfg := msgCfg(rr, nh, nc)
 		o := newMsg(cfg).(*msgObj)
+		if rr.Intn(3) == 0 {
+			// the object was used before: another message abandoned somewhere, then Reset()/Init()
+			other := gen.Msg(rr, gen.MsgOpts{MinHdrs: 2, MaxHdrs: 8, MultiNA: 60, Kinds: []int{gen.HContact, gen.HContact, gen.HPAI, gen.HFrom, gen.HTo, gen.HCSeq, gen.HVia}}).Raw
+			ab := rr.Intn(len(other) + 1)
+			core.Guard(func() {
+				sipsp.ParseSIPMsg(other[:ab], 0, &o.m, cfg.MsgFlags&^sipsp.SIPMsgNoMoreDataF)
+				doReset(o, rr.Intn(rkCount), cfg)
+			})
+			w.Inc("reused_objects")
+		}
 		cuts := []int{len(buf)}
 		if rr.Bool() {
 			cuts = CutsRandom(nil, rr, start, len(buf), rr.Range(1, 8))
